@@ -97,7 +97,10 @@ def gen_route(rng, L):
         r['how'] = rng.choice(['uint', 'int', 'bytes', 'uintle', 'Dtype-build', 'pack-uint'])
     else:
         r['how'] = rng.choice(['add', 'radd', 'mul', 'join', 'and-ones', 'invert-twice', 'other-class', 'pack-bits', 'shift0',
-                               'prepend-str-to-empty', 'append-str-to-empty', 'iadd-str-to-empty', 'insert-str-in-empty', 'setslice-str-in-empty'])
+                               'prepend-str-to-empty', 'append-str-to-empty', 'iadd-str-to-empty', 'insert-str-in-empty', 'setslice-str-in-empty',
+                               # objects the library made itself, and objects that got their content after they were made
+                               'pack-direct', 'length-only', 'from-BitArray', 'from-BitStream', 'copy-of-mutable', 'prop-bin-assigned', 'prop-uintN-assigned',
+                               'shift-all-then-or', 'mul0-then-iadd', 'stream-after-array-of-same-text', 'cleared-then-iadd'])
     return r
 
 
@@ -328,6 +331,49 @@ def build(cls, bits, r, files):
         return cls(mk(BitStream, bits)), bits
     if how == 'pack-bits':
         return cls(bitstring.pack('bits', mk(Bits, bits))), bits
+    if how == 'pack-direct':
+        o = bitstring.pack('bits', mk(Bits, bits)) if L % 2 else bitstring.pack(f'bin:{L}', bits) if L else bitstring.pack('')
+        return (o if cls is BitStream else cls(o)), bits
+    if how == 'length-only':
+        if '1' in bits:
+            raise Skip
+        return cls(length=L) if L % 2 else cls(L), bits
+    if how in ('from-BitArray', 'from-BitStream'):
+        return cls(mk(BitArray if how == 'from-BitArray' else BitStream, bits)), bits
+    if how == 'copy-of-mutable':
+        src = mk(cls, bits)
+        return (src.copy() if L % 2 else copy.copy(src)), bits
+    if how in ('prop-bin-assigned', 'prop-uintN-assigned', 'shift-all-then-or', 'mul0-then-iadd', 'cleared-then-iadd', 'stream-after-array-of-same-text'):
+        if cls.__name__ not in util.MUTABLE:
+            raise Skip
+        tok = ('0b' + bits) if L else ''
+        if how == 'prop-bin-assigned':
+            t = cls('0b1')
+            t.bin = bits
+        elif how == 'prop-uintN-assigned':
+            if not 0 < L <= 64:
+                raise Skip
+            t = cls()
+            setattr(t, f'uint{L}', int(bits, 2))
+        elif how == 'shift-all-then-or':
+            if not L:
+                raise Skip
+            t = mk(cls, '1' * L)
+            t <<= L                       # all zeros, by a whole-length shift
+            t |= tok
+        elif how == 'mul0-then-iadd':
+            t = mk(cls, '101')
+            t *= 0
+            t += tok
+        elif how == 'cleared-then-iadd':
+            t = mk(cls, '1101')
+            t.clear()
+            t += tok
+        else:
+            BitStream(tok)                # the other mutable class used the same text first
+            BitArray(tok)
+            t = cls(tok)
+        return t, bits
     if how.endswith('-empty'):
         # an empty mutable object that receives the bits as a token string (the parse of that string is shared by every later use of it)
         if cls.__name__ not in util.MUTABLE:
@@ -417,7 +463,27 @@ MUTATORS = {
     'ilshift': lambda s, L, b: s.__ilshift__(2) and None, 'imul': lambda s, L, b: s.__imul__(2) and None, 'ixor': lambda s, L, b: s.__ixor__(mk(Bits, b)) and None,
     'clear': lambda s, L, b: s.clear(), 'iadd': lambda s, L, b: s.__iadd__('0b1') and None, 'uint=': lambda s, L, b: setattr(s, 'uint', 1),
     'set-all': lambda s, L, b: s.set(0),
+    # the object, a copy or snapshot of it, and a change of one of the two: what the other holds afterwards is part of the outcome
+    'copy-then-change-copy': lambda s, L, b: _and_then(s.copy(), lambda c: (c.invert() if len(c) else None, c.append('0b1'))),
+    'copy.copy-then-change-copy': lambda s, L, b: _and_then(copy.copy(s), lambda c: (c.invert() if len(c) else None, c.append('0b1'))),
+    'snapshot-then-change': lambda s, L, b: _snapshot_then(s, Bits, lambda: (s.invert() if len(s) else None, s.append('0b1'))),
+    'stream-snapshot-then-change': lambda s, L, b: _snapshot_then(s, ConstBitStream, lambda: (s.prepend('0b1'), s.set(1))),
+    'operand-snapshot-then-change': lambda s, L, b: _snapshot_then(s, lambda x: Bits('0b1') + x, lambda: (s.invert() if len(s) else None, s.__imul__(2))),
+    'replace-by-self': lambda s, L, b: s.replace('0b1', s, count=2),
+    'replace-by-copy': lambda s, L, b: s.replace('0b1', s.copy(), count=2),
 }
+
+
+def _and_then(c, change):
+    change(c)
+    return B(c)
+
+
+def _snapshot_then(s, snap, change):
+    t = snap(s)
+    before = B(t)
+    change()
+    return before, B(t), (hash(t) if type(t) in (Bits, ConstBitStream) else None)
 
 
 def short(case):
